@@ -104,7 +104,7 @@ def cfg_C01(tier, rng):
             # the same guard text on several transitions whose values differ (time predicates relative to the source)
             dict(name='sametext', charts=gc.family_sametext(rng, 10 if tier == QUICK else 40),
                  consts=dict(MaxQ=1, MaxClk=3 if tier == QUICK else 4, Advances={1, 2}, MaxLevel=6 if tier == QUICK else 7),
-                 variants=[dict(variant='api')],
+                 variants=[dict(variant='api'), dict(variant='api', moving=True)],
                  random=dict(count=60 if tier == QUICK else 600, length=16, advances=(1, 2),
                              family=lambda r, kk: gc.family_sametext(r, kk)))]
 
